@@ -29,6 +29,7 @@ var c13Exceptions = []errException{{
 var c14Exceptions = []errException{
 	{fn: "(*column.Collection).recorderOpen", callee: "(*commit.Log).Close", reason: "best-effort cleanup of the temporary log on the path that already returns an error"},
 	{fn: "(*column.Collection).recorderOpen", callee: "os.Remove", reason: "best-effort cleanup of the temporary file on the path that already returns an error"},
+	{fn: "(*column.Collection).recorderOpen", callee: "os.RemoveAll", reason: "best-effort cleanup of the temporary file on the path that already returns an error"},
 }
 
 func snapshotFns(n string) bool {
